@@ -624,3 +624,30 @@ Example C05_ex_behave_link :
      = Some (stmt_behave ex_prog2 (stag 2%N))
   /\ stmt_behave ex_prog2 (stag 2%N) = BRaise EBoom.
 Proof. exact ex_behave_link. Qed.
+
+(* ---------------------------------------------------------------- third proof round (Proofs/C05_j4builtin.v): the built-in
+   exception-response view -- the only entries whose Body events the observable projection drops -- returns and is unprotected,
+   so a dropped Body event is never the source of an HTTPForbidden (second step towards the program-text clause J4) *)
+Require Import Verif.Proofs.C05_j4builtin.
+
+Theorem C05_builtin_returns : forall irq ier iw prog rt d,
+  prog_ok prog ->
+  In (rt, d) (cs_D (commit (init_state irq ier iw) prog)) ->
+  N.leb (2 * builtin_tag) rt = true ->
+  body_behave (d_body d) = BReturn /\ d_perm d = None.
+Proof. exact builtin_returns. Qed.
+Print Assumptions C05_builtin_returns.
+
+Theorem C05_builtin_not_source : forall irq ier iw prog rt d c,
+  prog_ok prog ->
+  let s := commit (init_state irq ier iw) prog in
+  In (rt, d) (cs_D s) -> assocN rt (cs_D s) = Some d ->
+  N.leb (2 * builtin_tag) rt = true ->
+  forbid_source_D (cs_D s) (Some (Body rt c)) = false.
+Proof. exact builtin_not_source. Qed.
+Print Assumptions C05_builtin_not_source.
+
+Example C05_ex_builtin_returns :
+  option_map (fun d => body_behave (d_body d)) (assocN 9000%N (cs_D (commit (init_state 1%N 7%N 8%N) ex_prog2))) = Some BReturn
+  /\ N.leb (2 * builtin_tag) 9000%N = true.
+Proof. exact ex_builtin_returns. Qed.
